@@ -39,7 +39,19 @@ theorem c12_mcs_no_use_after_free (nlocks nthreads : Nat) (acts : List Mcs.Act)
 
 /-- C12, second half: no node is lost.  Every live node is a thread's cached spare or the node of an unfinished
     request (bound: #threads + #outstanding requests); at quiescence only cached spares remain. -/
-theorem c12_mcs_live_nodes_accounted := @CppUtil.Props.mcs_live_nodes_accounted
-theorem c12_mcs_no_leak_at_quiescence := @CppUtil.Props.mcs_no_leak_at_quiescence
+theorem c12_mcs_live_nodes_accounted (nlocks nthreads : Nat) (acts : List Mcs.Act)
+    (hr : Mcs.RunOK CppUtil.Props.mcsPb CppUtil.Props.mcsCb CppUtil.Props.mcsParams (Mcs.mkSt nlocks nthreads) acts)
+    (k : Nat) (hk : Mcs.nodeLive (Mcs.run CppUtil.Props.mcsParams (Mcs.mkSt nlocks nthreads) acts) k = true) :
+    (∃ t : Nat, (Mcs.run CppUtil.Props.mcsParams (Mcs.mkSt nlocks nthreads) acts).tls[t]? = some (some k)) ∨
+    (∃ (i : Nat) (a : Mcs.Agent), (Mcs.run CppUtil.Props.mcsParams (Mcs.mkSt nlocks nthreads) acts).agents[i]? = some a ∧
+      a.loc ≠ Mcs.Loc.done ∧ a.qnode = k) :=
+  CppUtil.Props.mcs_live_nodes_accounted nlocks nthreads acts hr k hk
+
+theorem c12_mcs_no_leak_at_quiescence (nlocks nthreads : Nat) (acts : List Mcs.Act)
+    (hr : Mcs.RunOK CppUtil.Props.mcsPb CppUtil.Props.mcsCb CppUtil.Props.mcsParams (Mcs.mkSt nlocks nthreads) acts)
+    (hdone : ∀ a ∈ (Mcs.run CppUtil.Props.mcsParams (Mcs.mkSt nlocks nthreads) acts).agents, a.loc = Mcs.Loc.done)
+    (k : Nat) (hk : Mcs.nodeLive (Mcs.run CppUtil.Props.mcsParams (Mcs.mkSt nlocks nthreads) acts) k = true) :
+    ∃ t : Nat, (Mcs.run CppUtil.Props.mcsParams (Mcs.mkSt nlocks nthreads) acts).tls[t]? = some (some k) :=
+  CppUtil.Props.mcs_no_leak_at_quiescence nlocks nthreads acts hr hdone k hk
 
 end CppUtil.Props
